@@ -103,6 +103,9 @@ def canonical_vars_shifted(ck, facts, R):
 
 def run(ck, facts, tier):
     canonical_vars_shifted(ck, facts, "C16.CANONICAL-VARS-SHIFTED")
+    # instantiate o canonicalize is the identity on forms only if instantiation keeps the kind of every binder (integer / float too)
+    from props.c28 import kind_preserving
+    kind_preserving(ck, facts, "C16.KIND-PRESERVING")
     nimpl = kind_complete(ck, facts)
     ck.floor("C16.KIND-COMPLETE", "folder-impls", nimpl, 11)
 
